@@ -14,6 +14,8 @@ class Socket(base_socket.BaseSocket):
         super().__init__(server, sid)
         # of the threads that race to close the socket only one may do it
         self._close_lock = threading.Lock()
+        # likewise, only one WebSocket at a time may attempt the upgrade
+        self._upgrade_lock = threading.Lock()
 
     def poll(self):
         """Wait for packets to send to the client."""
@@ -180,6 +182,13 @@ class Socket(base_socket.BaseSocket):
 
         if self.connected:
             # the socket was already connected, so this is an upgrade
+            if not self._upgrade_lock.acquire(blocking=False):
+                # another WebSocket is in the middle of the handshake (or
+                # has completed it): only one can carry the session
+                self.server.logger.info(
+                    '%s: Refused websocket upgrade, another one is in '
+                    'progress', self.sid)
+                return []
             self.upgrading = True  # hold packet sends during the upgrade
 
             try:
@@ -208,6 +217,9 @@ class Socket(base_socket.BaseSocket):
                 # however the handshake ends (including an oversize or
                 # undecodable frame or a closed socket), resume polling
                 self.upgrading = False
+                if not self.upgraded:
+                    # a failed attempt does not stand in the way of the next
+                    self._upgrade_lock.release()
         else:
             self.connected = True
             self.upgraded = True
